@@ -27,9 +27,13 @@ theorem cinv_init : CInv {} := by constructor <;> simp
 
 theorem cinv_step (c : Conn) (op : COp) (h : CInv c) : CInv (cstep c op) := by
   obtain ⟨h1, h2, h3, h4, h5, h6⟩ := h
-  rcases c with ⟨req, de, nx, closing, destroyed, fdo, fed, po, wq, cbs, wcbs, accd⟩
+  rcases c with ⟨req, de, nx, closing, destroyed, fdo, fed, po, wq, cbs, wcbs, accd, ncon⟩
   simp only at h1 h2 h3 h4 h5 h6
   cases op with
+  | tcpBind r =>
+    simp only [cstep, tcpBind]
+    repeat' split
+    all_goals (constructor <;> simp_all <;> (try assumption))
   | tcpConnect e r =>
     simp only [cstep, tcpConnect]
     repeat' split
@@ -71,9 +75,13 @@ theorem cinv_run (ops : List COp) : ∀ c, CInv c → CInv (crun c ops) := by
 theorem nonelost_step (c : Conn) (op : COp) (h : CInv c) (hn : NoneLost c)
     (ho : noOverlap c [op] = true) : NoneLost (cstep c op) := by
   obtain ⟨h1, h2, h3, h4, h5, h6⟩ := h
-  rcases c with ⟨req, de, nx, closing, destroyed, fdo, fed, po, wq, cbs, wcbs, accd⟩
+  rcases c with ⟨req, de, nx, closing, destroyed, fdo, fed, po, wq, cbs, wcbs, accd, ncon⟩
   simp only [NoneLost] at *
   cases op with
+  | tcpBind r =>
+    simp only [cstep, tcpBind]
+    repeat' split
+    all_goals (intro q hq; simpa using hn q hq)
   | tcpConnect e r =>
     simp only [cstep, tcpConnect]
     repeat' split
